@@ -47,36 +47,57 @@ TRUSTED = [
     "Part.quarter_map / beat_map / time_signature_map (scipy interp1d) are C02/C10's subject: modelled here as exact "
     "piecewise-linear / step functions of the tables and compared through the ticks they produce",
     "pitch spelling, clef and symbolic-duration estimation inside load_score_midi / create_part (C17, C11): only "
-    "MIDI pitch, onset, tied duration, voice, part and group of the imported notes are compared",
+    "MIDI pitch, onset, tied duration, voice, part, group and the quarter-duration table of the imported parts are compared",
+    "binary64 quarter_map values of the score are snapped to the rational they stand for (denominator <= 10^6) before "
+    "they are compared with the model's exact scoreRows",
     "Python dict insertion order; np.lcm.reduce on int64 (no overflow for the generated divisions)",
 ]
 PARTIAL = [
-    "ticks_integral_pad_partial: pad_bar needs beat_type | 4*beats*ppq (bar of the first signature on the tick grid)",
-    "time_sig_change with an irregular measure whose length is not a whole number of beats: halved beats up to /128 "
-    "(fix C04-9), truncated when not dyadic: modelled; the oracle only demands a non-zero numerator there",
+    "ticks_integral_pad_partial / export_ticks_exact_pad_partial / score_roundtrip_pad_partial: pad_bar needs "
+    "beat_type | 4*beats*ppq (bar of the first signature on the tick grid); roundtrip_ticks (written integer ticks) "
+    "holds for pad_bar without it",
+    "time_sig_change_positions: which signatures are kept and where events may stand is proved; the numerator written "
+    "for an irregular measure (whole beats, or halved beats up to /128 after fix C04-9, truncated when not dyadic) and "
+    "the dropping of the first of two signatures at one tick are modelled and compared; the oracle demands the "
+    "signature in force at every measure start (a non-zero numerator where the length is not a whole number of beats)",
+    "tempo_positions: one event per tick, every event a tempo mark at its tick, every mark's tick covered; WHICH of "
+    "two marks on one tick survives (the one read last) is modelled and compared, not stated as a theorem",
     "parts with different metres merged into one track (modes 1, 2, 4) give a track with two signatures at one tick; "
     "when the importer's part construction rejects such a file the import is neither compared nor judged",
-    "Props/C04.lean states the theorems for one track / one key list; that save_score_midi routes every note to the "
-    "track and channel of its key is part of the executable model (Model/ScoreMidi.lean) and compared, not proved",
-    "the theorems are about the models; that save_score_midi / load_score_midi compute the modelled functions is "
-    "established by the differential run only",
+    "the theorems are about the models (saveScoreMidi / loadScoreMidi and their named pieces); that save_score_midi / "
+    "load_score_midi compute the modelled functions, and that the theorems' vocabulary (routedTo, trackKS, trackTS, "
+    "trackTempo, scoreRows, importedRows of Model/ScoreMidiSpec.lean) means what the real file holds, is established "
+    "by the differential run only",
+    "create_part: only the quarter duration it sets and the placement of the notes in divisions (create_part_placement); "
+    "measures, ties, tuplets, symbolic durations of the created part are C11's subject",
+    "the imported signature / tempo positions (sanitize step, global tracks) are modelled and compared, not proved",
     "Tempo values (bpm -> microseconds per quarter) are C12's conversion; here positions and the written integer",
 ]
-RULE = ("seeded musical scores: 1-3 parts (optionally in part groups, optionally one without notes), divisions drawn "
-        "mostly from {3,5,6,7,9,12,24} and changing inside a part at barlines, 1-4 bars over a shared or per-part "
-        "bar skeleton with optional pickup and irregular bars, 1-3 voices (one may be None) filled from a duration "
-        "alphabet with triplet/quintuplet/septuplet values, rests, chords, grace notes, ties over barlines, notes "
-        "crossing a division change; pitches chosen so that equal pitches never overlap anywhere in the score but "
-        "deliberately touch across voices/parts and coincide with grace notes; each score x 6 modes x 3 anacrusis "
-        "behaviours x minimum_ppq in {0,96,480} x a velocity; plus direct calls of get_ppq-rule, map_to_track_channel, "
-        "assign_group_part_voice/make_track_to_part_mapping and duration_tied on random inputs (invalid modes "
-        "included). distinct = distinct case description; non-trivial = at least one sounding note written")
-LEVEL_TEXT = ("Lean 4 theorems over all quarter-duration tables, event lists and key lists: integer ticks, "
-              "monotone exact tick image, ppq = lcm * 2^k minimal, delta/absolute round trip, stable meta/off/zero/on "
-              "order, soundness of the readers' pairing automaton for every non-overlapping note list, per-mode "
-              "recovery of the grouping; tied to the code by a differential run of the real save_score_midi / "
-              "load_score_midi / load_performance_midi against the executable models on generated scores for all "
-              "54 configurations, with an independent Fraction oracle of the property itself.")
+RULE = ("seeded musical scores: 1-3 parts (optionally in part groups, also nested two and three levels deep, optionally "
+        "one without notes), divisions drawn mostly from {3,5,6,7,9,12,24} and changing inside a part at barlines, 1-4 "
+        "bars over a shared or per-part bar skeleton with optional pickup, irregular bars and time signature changes, "
+        "0-3 further key signatures at barlines or inside a bar, 0-5 tempo marks per part at barlines (coinciding "
+        "across parts) or anywhere, 1-3 voices (one may be None) filled from a duration alphabet with "
+        "triplet/quintuplet/septuplet values, rests, chords, single and double grace notes (on a free pitch, on the pitch "
+        "of their own main note, or on a pitch that starts or ends there), ties over barlines, notes crossing a division "
+        "change; pitches chosen so that equal pitches never overlap anywhere in the score but deliberately touch across "
+        "voices/parts; each score x 6 modes x 3 anacrusis behaviours x minimum_ppq in {0,96,480} x a velocity; plus "
+        "direct calls of get_ppq-rule, map_to_track_channel, assign_group_part_voice/make_track_to_part_mapping and "
+        "duration_tied on random inputs (invalid modes included) and raw MIDI files for the two readers. "
+        "distinct = distinct case description; non-trivial = at least one sounding note written")
+LEVEL_TEXT = ("Lean 4 theorems over all scores: for every list of parts, mode, anacrusis policy, minimum ppq and velocity "
+              "for which the model of save_score_midi returns a file, pairing each written track returns exactly the "
+              "sounding notes routed to it (export_pairing_sound), the written ticks are the exact images of the musical "
+              "times (export_ticks_exact), importing the file with the model of load_score_midi gives back the multiset "
+              "of (onset, duration) in quarters and pitch (score_roundtrip, also from the note objects with tie chains "
+              "merged), key / time signatures and tempo marks stand at the ticks of their positions "
+              "(key_signature_positions, time_signature_positions, time_sig_change_positions, tempo_positions, "
+              "pad_bar_offset), the created parts have ppq divisions per quarter (create_part_placement); on top of the "
+              "per-track theorems (integer ticks, ppq = lcm * 2^k minimal, delta round trip, stable event order, pairing "
+              "automaton, six modes). Tied to the code by a differential run of the real save_score_midi / "
+              "load_score_midi / load_performance_midi against the executable models AND against the theorems' "
+              "vocabulary (what each track must hold, the notes in musical time) on generated scores for all 54 "
+              "configurations, with an independent Fraction oracle of the property itself.")
 
 MODES = [0, 1, 2, 3, 4, 5]
 ANAC = ["shift", "pad_bar", "time_sig_change"]
